@@ -33,6 +33,10 @@ def run_k(ctx, kres):
     # history attributes of derived and unwrapped keys (C_DeriveKey / C_UnwrapKey paths of the model)
     n = 16 if ctx.quick else 300
     v += k_suite(ctx, kres, "K08-derive-unwrap", [Trace("wrap%d" % i, gen.wrap_history(ctx.seed * 2750159 + i, 50)) for i in range(n)], in_projection)
+    # CKA_LOCAL / ALWAYS_SENSITIVE / NEVER_EXTRACTABLE of unwrapped secret AND private keys, for every PRIVATE / EXTRACTABLE / SENSITIVE / TOKEN choice of the template
+    from .. import gen2
+    mt, ncell = gen2.c13_unwrap_matrix(ctx.seed, sample=180 if ctx.quick else None)
+    v += k_suite(ctx, kres, "K08-unwrap-matrix", [Trace("unwrap-matrix", mt)], in_projection)
     return v
 
 
